@@ -77,6 +77,10 @@ def gen_lineage_model(r, absorb=False, allow_death=True):
         splitter["options"] = {"perfect": [s for s in species if r.random() < 0.3]}
         splitter["options"]["duplicate"] = [s for s in species if s not in splitter["options"]["perfect"] and r.random() < 0.3]
         splitter["noise"] = r.choice([0.0, 0.1, 0.3])
+        splitter["earlier_options"] = []
+        for _ in range(r.choice([0, 0, 1, 2])):
+            perf = [s for s in species if r.random() < 0.5]
+            splitter["earlier_options"].append({"perfect": perf, "duplicate": [s for s in species if s not in perf and r.random() < 0.5]})
     division2 = None
     splitter2 = None
     if dk == "rule_time" and "noise" not in division and sk == "lineage" and r.random() < 0.5:
@@ -103,6 +107,10 @@ def build_splitter(lm, M):
         return PerfectBinomialVolumeSplitter()
     if sp["kind"] == "general":
         v = GeneralVolumeSplitter()
+        for prior in sp.get("earlier_options", []):
+            # the splitter is configured more than once: only the last configuration counts
+            v.py_set_partitioning({k: list(x) for k, x in prior.items()}, M)
+            v.py_set_partition_noise(0.05)
         v.py_set_partitioning({k: list(x) for k, x in sp["options"].items()}, M)
         v.py_set_partition_noise(sp["noise"])
         return v
@@ -606,6 +614,16 @@ def results_pickle_probe(out, bad, stats):
                 cs2.py_get_time() != cs.py_get_time() or cs2.py_get_initial_volume() != 1.25 or cs2.py_get_initial_time() != 0.5:
             bad("pickled_cell_state_differs")
             return
+        # division / death flags are part of a cell's state too (a pending division decides what the next simulation does)
+        for dv, dd in ((-1, -1), (0, -1), (2, -1), (-1, 1)):
+            cf = LineageVolumeCellState(v0=1.25, t0=0.5, state=row.copy(), volume=2.0, time=3.5, divided=dv, dead=dd)
+            for restored in (pickle.loads(pickle.dumps(cf, protocol=2)), pickle.loads(pickle.dumps(cf, protocol=5)), copy.deepcopy(cf)):
+                ga, gb = cf.__getstate__(), restored.__getstate__()
+                same = len(ga) == len(gb) and all((np.array_equal(np.asarray(x), np.asarray(y))) for x, y in zip(ga, gb))
+                if not same:
+                    bad("pickled_cell_state_differs", original=[np.asarray(x).tolist() for x in ga],
+                        restored=[np.asarray(x).tolist() for x in gb])
+                    return
         cs3 = copy.deepcopy(cs)
         cs3.py_get_state()[0] += 1
         if np.array(cs.py_get_state())[0] != row[0]:
